@@ -1,3 +1,4 @@
+import Gofasta.Lemmas.SortSpec
 import Gofasta.Lemmas.TopK
 import Gofasta.Lemmas.Reorder
 import Gofasta.Model.Updown
@@ -24,6 +25,13 @@ prefix is lost at the capacity boundary, whatever the order and tie pattern of t
 theorem bin_is_prefix (cap : Nat) (hc : 0 < cap) (hits : List UDHit) :
     topKG udLt cap hits = (sortStable udLt hits).take cap :=
   topK_spec udLt_swo cap hc hits
+
+/-- the ranking is unique: any permutation of the candidates sorted by (distance, ambiguities) that keeps tied
+candidates in file order is the stable sort, so each bin is a prefix of *the* ranking by (distance, ambiguities, file order) -/
+theorem bin_is_prefix_of_ranking (cap : Nat) (hc : 0 < cap) (hits ranked : List UDHit)
+    (hp : ranked.Perm hits) (hs : Sorted udLt ranked) (hst : ∀ z, ranked.filter (tied udLt z) = hits.filter (tied udLt z)) :
+    topKG udLt cap hits = ranked.take cap := by
+  rw [bin_is_prefix cap hc hits, sortStable_unique udLt_swo hits ranked hp hs hst]
 
 /-- the direction switch of whichWay: which of the two sequences carries private differences -/
 theorem direction_table (q t : UDLine) (n d : Nat) (dir dist : Nat) (h : whichWay q t n d = some (dir, dist)) :
